@@ -558,11 +558,113 @@ def cookie_mechanism_case():
     return None
 
 
+def cookie_full_stack_case():
+    """DBUS_COOKIE_SHA1 through the whole bus side - line framing, BusAuthenticator, the real mechanism with its keyring in a
+    temporary directory: a conforming client that answers the challenge with the cookie stored under the id it was told IS
+    accepted (OK, then authenticated on BEGIN); the same exchange with one hex digit of the hash changed is not"""
+    import binascii, hashlib, os, shutil, tempfile
+    from twisted.internet.testing import StringTransport
+    from txdbus import authentication, bus, protocol
+    tmp = tempfile.mkdtemp(prefix='verif_c06f_')
+    keyring = os.path.join(tmp, 'keyring')
+    orig = authentication.BusCookieAuthenticator._step_one
+    authentication.BusCookieAuthenticator._step_one = lambda self, username, keyring_dir=None: orig(self, username, keyring)
+    old_linux = protocol._is_linux
+    protocol._is_linux = False
+
+    class F:
+        class bus: uuid = b'guid'
+    try:
+        for tamper in (False, True):
+            p = bus.BusProtocol()
+            p.factory = F
+            t = StringTransport()
+            p.makeConnection(t)
+
+            def lines():
+                out = [l for l in t.value().split(b'\r\n') if l]
+                t.clear()
+                return out
+            p.dataReceived(b'\0AUTH DBUS_COOKIE_SHA1 ' + binascii.hexlify(str(os.getuid()).encode('ascii')) + b'\r\n')
+            out = lines()
+            if len(out) != 1 or not out[0].startswith(b'DATA '):
+                return 'AUTH DBUS_COOKIE_SHA1 <uid> answered %r, expected a DATA challenge' % (out,)
+            ctx, cid, challenge = binascii.unhexlify(out[0][5:]).split()
+            cookie = None
+            with open(os.path.join(keyring, ctx.decode('ascii')), 'rb') as f:
+                for line in f:
+                    k_id, _t, k_hex = line.split()
+                    if k_id == cid:
+                        cookie = k_hex
+            if cookie is None:
+                return 'the cookie id %r named in the challenge is not in the keyring file' % cid
+            cc = binascii.hexlify(b'client-challenge')
+            h = binascii.hexlify(hashlib.sha1(b':'.join([challenge, cc, cookie])).digest())
+            if tamper:
+                h = (b'0' if h[:1] != b'0' else b'1') + h[1:]
+            p.dataReceived(b'DATA ' + binascii.hexlify(cc + b' ' + h) + b'\r\n')
+            out = lines()
+            p.dataReceived(b'BEGIN\r\n')
+            if not tamper and (len(out) != 1 or not out[0].startswith(b'OK ') or not p._authenticated):
+                return 'a conforming client presenting the right cookie response was answered %r and authenticated=%r' % (out, p._authenticated)
+            if tamper and (p._authenticated or not out or not out[0].startswith(b'REJECTED')):
+                return 'a wrong cookie response was answered %r, authenticated=%r' % (out, p._authenticated)
+        # the library's own client against the library's own bus: EXTERNAL is refused (no peer credentials here), the client
+        # moves on to DBUS_COOKIE_SHA1, reads the cookie from the keyring and is accepted
+        import pwd
+        from . import c07 as _c07
+        p = bus.BusProtocol()
+
+        class F2:
+            class bus: uuid = b'1234abcd'
+        p.factory = F2
+        t = StringTransport()
+        p.makeConnection(t)
+        ca, cp = _c07.make_client(False)
+        ca.cookie_dir = keyring
+        saved_getpass = authentication.getpass
+
+        class RealUser:
+            @staticmethod
+            def getuser(): return pwd.getpwuid(os.getuid()).pw_name
+        authentication.getpass = RealUser
+        try:
+            p.dataReceived(b'\0')
+            sent = 0
+            for _ in range(12):
+                for l in cp.sent[sent:]:
+                    p.dataReceived(l + b'\r\n')
+                sent = len(cp.sent)
+                out = [l for l in t.value().split(b'\r\n') if l]
+                t.clear()
+                if ca.authenticated:
+                    break
+                for l in out:
+                    ca.handleAuthMessage(l)
+        finally:
+            authentication.getpass = saved_getpass
+        used_cookie = any(l.startswith(b'DATA ') for l in cp.sent)
+        if not (ca.authenticated and p._authenticated and used_cookie):
+            return 'the library\'s client against its bus with a shared keyring: client lines %r, client authenticated=%r, bus authenticated=%r' % (cp.sent, ca.authenticated, p._authenticated)
+    finally:
+        authentication.BusCookieAuthenticator._step_one = orig
+        protocol._is_linux = old_linux
+        shutil.rmtree(tmp, ignore_errors=True)
+    return None
+
+
 def bounded(tier, seed):
     n = 1
     f = cookie_mechanism_case()
     if f:
         return n, f, {'case': 'cookie mechanism'}
+    n += 1
+    try:
+        f = cookie_full_stack_case()
+    except Exception as e:
+        f = 'cookie exchange through the bus raised %s: %s' % (type(e).__name__, e)
+    if f:
+        return n, f, {'case': 'cookie exchange through the bus'}
     depth = 4 if tier == 'thorough' else 3
     small = [ALPHABET[i] for i in (0, 1, 2, 3, 5, 8, 9, 10, 12)]
     for L in range(1, depth + 1):
